@@ -257,7 +257,9 @@ func c07Run(c *Ctx, cs *c07Case) string {
 	var used []int
 	returned := 0
 	dead := 0
-	input := func() interface{} { return map[string]interface{}{"line": cs.line(), "reads_so_far": strings.Join(toks, " ")} }
+	input := func() interface{} {
+		return map[string]interface{}{"line": cs.line(), "reads_so_far": strings.Join(toks, " ")}
+	}
 	maxReads := 40 + 3*len(cs.Script) + len(cs.Plain)
 	if maxReads > 6000 {
 		maxReads = 6000
